@@ -309,8 +309,8 @@ pub enum Stmt {
     Exit,
     Continue,
     Return,
-    /// FB invocation: inst(in := e, ...) ; outputs are read through member access afterwards
-    FbCall(String, Vec<(String, Expr)>),
+    /// FB invocation: inst(in := e, ..., out => target, ...); outputs are also read through member access afterwards
+    FbCall(String, Vec<(String, Expr)>, Vec<(String, Lv)>),
     /// fb() without arguments (feature)
     FbCallNoArgs(String),
 }
@@ -487,8 +487,9 @@ fn print_stmts(out: &mut String, stmts: &[Stmt], ind: usize) {
             Stmt::Return => {
                 let _ = writeln!(out, "{pad}RETURN;");
             }
-            Stmt::FbCall(inst, args) => {
-                let a: Vec<String> = args.iter().map(|(n, e)| format!("{n} := {}", expr_text(e))).collect();
+            Stmt::FbCall(inst, args, outs) => {
+                let mut a: Vec<String> = args.iter().map(|(n, e)| format!("{n} := {}", expr_text(e))).collect();
+                a.extend(outs.iter().map(|(n, l)| format!("{n} => {}", lv_text(l))));
                 let _ = writeln!(out, "{pad}{inst}({});", a.join(", "));
             }
             Stmt::FbCallNoArgs(inst) => {
@@ -971,7 +972,7 @@ impl<'a> Gen<'a> {
                 Stmt::If(c, vec![Stmt::Return], vec![], vec![])
             }
             15 if !self.insts.is_empty() && !self.in_pou => {
-                let (inst, ins, _) = self.insts[self.rng.usize(self.insts.len())].clone();
+                let (inst, ins, outs_decl) = self.insts[self.rng.usize(self.insts.len())].clone();
                 // some inputs omitted: they keep their previous value
                 let mut args = Vec::new();
                 for (n, t) in ins {
@@ -987,7 +988,22 @@ impl<'a> Gen<'a> {
                     }
                     return None;
                 }
-                Stmt::FbCall(inst, args)
+                // bind some outputs to plain variables of exactly the output's type (written back after the call, also after RETURN)
+                let mut outs = Vec::new();
+                let prot = self.protected.clone();
+                for (n, t) in outs_decl {
+                    if self.rng.chance(1, 3) {
+                        let c: Vec<String> = self.scope.iter().filter(|v| v.1 == t && v.2 && v.3.is_none() && !prot.contains(&v.0)).map(|v| v.0.clone()).collect();
+                        if !c.is_empty() && !outs.iter().any(|(_, l): &(String, Lv)| matches!(l, Lv::Var(x, _) if c.contains(x) && c.len() == 1)) {
+                            let target = c[self.rng.usize(c.len())].clone();
+                            if !outs.iter().any(|(_, l): &(String, Lv)| matches!(l, Lv::Var(x, _) if *x == target)) {
+                                outs.push((n, Lv::Var(target, t)));
+                                self.features.insert("fb-output-binding".into());
+                            }
+                        }
+                    }
+                }
+                Stmt::FbCall(inst, args, outs)
             }
             _ => {
                 let lv = self.lvalue()?;
